@@ -27,6 +27,18 @@ def _import(cfg, rep, sub, rules, tag):
             rep.violation("%s:%s" % (tag, k), v.msg, loc=v.loc, config=cfg, rule="%s/%s" % (tag, v.rule), witness=v.witness)
 
 
+_SALT_TY = re.compile(r"(std::path::PathBuf|std::string::String|put::WriteOpts|^u128$|serde_json::Value|ssri::Integrity$|ssri::Integrity>|std::vec::Vec<u8>>)")
+
+
+def _salt_field(w, owner, name):
+    """A field whose value must not reach a digest: paths, keys, options, counters, times, metadata, addresses (by type).
+    Buffers, file handles, mappings, readers / writers / linkers and the state machine are what the data flows through."""
+    for (_, fn_, fty_) in w.adt_fields(owner) or w.adt_fields(owner.rsplit("::", 1)[0]):
+        if fn_ == name:
+            return bool(_SALT_TY.search(fty_.lstrip("&").replace("mut ", "")))
+    return name in ("cache", "key", "opts", "written")
+
+
 def is_default_algo(t):
     """alt(field WriteOpts.algorithm as Some.0 | Algorithm::Sha256)"""
     alts = set(t[1]) if t[0] == "alt" else {t}
@@ -125,7 +137,9 @@ def check_config(cfg, w, rep):
                     owner = o.info[0]
                     base_owner = owner if owner in tt else owner.rsplit("::", 1)[0]
                     # fields of the content writer's own state (staging buffer, file handle, mapping, state machine)
-                    if (owner in tt or base_owner in tt) and o.info[1] not in ("cache", "key", "opts", "written"):
+                    # (which fields are "state" is judged by their type, not their name: the cache path, the key, the options
+                    #  and the byte counters are what must not reach the digest)
+                    if (owner in tt or base_owner in tt) and not _salt_field(w, owner, o.info[1]):
                         continue
                     bad.append(repr(o))
                 elif o.kind == "param":
@@ -176,7 +190,7 @@ def check_config(cfg, w, rep):
             dep2 = prog.resolve_op(b2, t2.args[ai], DEPEND, blk2.i)
             bad = []
             for o in dep2:
-                if o.kind == "field" and not (o.info[1] in ("buf", "linker", "fd", "reader", "writer") or o.info[0] in tt or o.info[0].rsplit("::", 1)[0] in tt):
+                if o.kind == "field" and not (not _salt_field(w, o.info[0], o.info[1]) or o.info[0] in tt or o.info[0].rsplit("::", 1)[0] in tt):
                     bad.append(repr(o))
                 elif o.kind == "param":
                     q = prog.param_index(o)
